@@ -17,7 +17,7 @@ LEVEL_NOTE = ("modelled, not verified: urllib.parse.quote/unquote, text-mode dec
               "CPython 3.12.1 as encoded in Model/Codec.lean and Model/Date.lean; dates with non-ASCII digits "
               "and percent-decoded values that are not UTF-8 are outside the modelled domain")
 RULE = ("exhaustive: every byte 1-255 except '/' alone and inside a name, every ordered pair of 40 interesting "
-        "bytes, depths 1-4, 255-byte names, 64 boundary dates; then seeded random byte strings and random "
+        "bytes, depths 1-4, 255-byte names, paths of 2-15 such names (ASCII, UTF-8, escaped, invalid UTF-8: up to 7.6 KB once escaped), 64 boundary dates; then seeded random byte strings and random "
         "foreign .trashinfo contents; a case is non-trivial when it reaches the writer or a reader and distinct "
         "by its input bytes")
 
@@ -109,6 +109,14 @@ def gen_locs(ck, tier):
     yield ("long", b"/" + b"n" * 255)
     yield ("long-utf8", b"/" + "é".encode() * 127)
     yield ("long-esc", b"/" + b" " * 255)
+    # deep paths of long names: far below PATH_MAX on disk, several KB once escaped in the .trashinfo
+    for depth in (2, 4, 6, 8, 10, 15):
+        yield ("deep-ascii", b"/" + b"/".join([b"n" * 255] * depth))
+        if depth <= 10:
+            yield ("deep-utf8", b"/" + b"/".join(["é".encode() * 127] * depth))
+            yield ("deep-esc", b"/" + b"/".join([b" %" * 127] * depth))
+            yield ("deep-invalid", b"/" + b"/".join([b"\xff" * 255] * depth))
+            yield ("deep-rel-3byte", b"/".join(["€".encode() * 85] * depth))
     n = 3000 if tier == "quick" else 200000
     for _ in range(n):
         k = rng.choice((1, 2, 3, 5, 8, 20))
@@ -123,7 +131,10 @@ DATE_SPELLINGS = ["2024-02-29T23:59:59", "2024-2-9T3:5:7", "2024-02-29t23:59:59"
                   "24-02-29T23:59:59", "2024-02-29T23:59:59.5", "2024-02-29T23:59:5", "2024-002-29T23:59:59",
                   "", "x", "2024-1-1T1:1:1", "2024-10-31T20:00:00", "2024-11-30T19:09:00", "2023-02-29T00:00:00",
                   "1900-02-29T00:00:00", "2000-02-29T00:00:00", "2024-00-10T00:00:00", "2024-01-00T00:00:00",
-                  "2024-01-32T00:00:00", "2024-04-31T00:00:00", "2024-1-1T0:0:0", "2024-01-01T7:60:00"]
+                  "2024-01-32T00:00:00", "2024-04-31T00:00:00", "2024-1-1T0:0:0", "2024-01-01T7:60:00",
+                  "2024-02-29T23:59:59+0100", "2024-02-29T23:59:59-05:00", "2024-02-29T23:59:59Z", "2024-02-29T23:59:59 UTC",
+                  "2024-02-29T23:59:59+00:00", "2024-02-29T23:59:59.000000", "2024-060T23:59:59", "+2024-02-29T23:59:59",
+                  "２０２４-02-29T23:59:59", "2024-02-29T23:59:5９"]
 
 PATH_VALUES = [b"/a/b", b"a/b", b"", b"/", b"%41", b"%4", b"%", b"%%41", b"%zz", b"%c3%a9", b"%C3%A9", b"%e9",
                b"%FF", b"a%2Fb", b"a%0Ab", b"a+b", b"a b ", b" /lead", b"/tr ail ", b"%25%32%35", b"/a=b",
